@@ -13,13 +13,14 @@ BASES = {
 ignore /~+/
 start = Item*
 Item = Pair | Wd | Tm("x") | Ex
-Tm(prm) = let lv = prm in [`lv`, prm, Expect(prm)?]
+Tm(prm) = let lv = prm in [`lv`, prm, Wr(Expect(prm) |> `lambda z: (lv, z)`)?]
+Wr(wq) = wq
 class Wd { wf: /[ab]+/ }
 class Pair { kf: Wd << ":"; let sf: "="?; vf: Wd }
 Ex = "1" >> (Nm between { left: "+" })
 Nm = /[0-9]/ |> `int`
 ''', {'rule': 'Item', 'class': 'Wd', 'field': 'kf', 'letfield': 'sf', 'param': 'prm', 'letvar': 'lv', 'template': 'Tm', 'rule2': 'Nm',
-      'field2': 'wf', 'ignored-free-rule': 'Ex'},
+      'field2': 'wf', 'ignored-free-rule': 'Ex', 'template2': 'Wr', 'param2': 'wq'},
            'ab:1+x', ['a:b', 'a:=b', '1+2', '12+3', 'xx', 'a:bxx1', 'ab:ba1+1', 'a~:b~~x']),
     'G2': (r'''
 start = Rec+
@@ -49,20 +50,28 @@ Wd = /[ab]+/
 Nb = /[0-9]+/ |> `int`
 ''', {'ignorerule': 'Sp', 'rule': 'Stmt', 'class': 'Asg', 'field': 'nm', 'field2': 'val', 'letfield': 'mk', 'rule2': 'Ex', 'rule3': 'Atom', 'rule4': 'Nb'},
            'a1=*;', ['a=1*2', 'a = -b ^ 2 ; 1', '(a)*b', '-(1^2^a);', 'a==', '1 * (2', 'b=a;a=b;', 'a=1 b!*2!!', 'a=b 1!;b']),
+    'G4': (r'''
+start = Rec+
+class Rec { tag: 0x61 | 0x62; cnt: /[0-9]/ |> `int`; body: Bt{cnt}; let sep: 0x3B? }
+Bt = 0x61 | b"b"
+''', {'class': 'Rec', 'field': 'tag', 'field2': 'cnt', 'field3': 'body', 'letfield': 'sep', 'rule': 'Bt'},
+           'ab1;', ['a1a;', 'b2ab;a0', 'a2a', 'a1b;b1a', 'a0;']),
 }
+BYTES_BASES = {'G4'}
 ENTRIES = {'G2': (('Ct', (2, ';'), [';a,b', ';a,b,a', ';', 'a']), ('Ct', (0, ','), [',', ',a']))}
 API = {'parse', 'Infix', 'Prefix', 'Postfix', 'ParsedObject', 'ParsingRule', 'InputError', 'ParseError', 'PartialParseError',
        'visit', 'traverse', 'transform'}
 DSL_WORDS = {'class', 'let', 'in', 'pass', 'requires', 'ignore', 'ignored', 'override', 'overrides', 'grammar', 'extends', 'between', 'where',
-             'left', 'right', 'infix', 'mixfix', 'postfix', 'prefix', 'operator', 'start', 'Start', 'super', 'True', 'False', 'None'}
+             'left', 'right', 'infix', 'mixfix', 'postfix', 'prefix', 'operator', 'start', 'Start', 'True', 'False', 'None'}
 
 
 def rename(desc, old, new):
     return re.sub(r'(?<![A-Za-z0-9_])%s(?![A-Za-z0-9_])' % re.escape(old), new, desc)
 
 
-def inputs_for(sigma, extra):
-    return e1.strings(sigma, 3) + list(extra)
+def inputs_for(sigma, extra, as_bytes=False):
+    out = e1.strings(sigma, 3) + list(extra)
+    return [t.encode('latin-1') for t in out] if as_bytes else out
 
 
 def canon(v, mp):
@@ -134,6 +143,10 @@ def pool_for(desc, used):
     names |= {'value2', 'item1', 'staging1', 'list', 'len', 'id', 'object', 'dict', 'Seq', 'List', 'Left', 'self', 'text', 'pos',
               'result', 'memo', 'key', 'stack', 'node', 'callback', 'cls', 'type', 'str', 'int', 'tuple', 'set', 'hash', 'getattr', 'isinstance',
               'reversed', 'enumerate', 'super', 'repr', 'print', 'fullparse', 'operand', 'closure', 'min', 'max', 'field', 'fields', 'name', 'args', 'kwargs', 'func'}
+    # identifiers that merely START with a word of the grammar language (they are ordinary identifiers)
+    names |= {'letter', 'Nonempty', 'Trueish', 'Falsey', 'whereabouts', 'classy', 'passage', 'inner', 'ignoreme', 'ignoredx',
+              'overriden', 'grammarian', 'extendsx', 'betweenness', 'requirement', 'lefty', 'righty', 'infixed', 'mixfixy',
+              'postfixy', 'prefixy', 'superb', 'starter', 'b', 'i', 'B', 'I', 'x0', 'X0'}
     return sorted(n for n in names if not n.startswith('_') and not keyword.iskeyword(n) and n not in API
                   and n not in used and n not in DSL_WORDS)
 
@@ -145,7 +158,7 @@ def used_names(desc):
 def job_fn(job):
     gname, renames = job          # renames: [(role, old, new)]
     desc, roles, sigma, extra = BASES[gname]
-    inputs = inputs_for(sigma, extra)
+    inputs = inputs_for(sigma, extra, gname in BYTES_BASES)
     res = {'ctr': {'cases': 0, 'nontrivial': 0, 'states': 1, 'transitions': len(inputs)}, 'sets': {'outcome_kinds': set()},
            'viol': [], 'viol_keys': []}
     extra_entries = ENTRIES.get(gname, ())
@@ -194,7 +207,7 @@ def all_jobs(tier):
 
 def run(tier, seed):
     chk = Check('C20', tier, seed)
-    chk.rule = ('3 base grammars (covering rule, class, class field, let field, parameter, let variable, rule and class templates, operator '
+    chk.rule = ('4 base grammars (one of them binary; covering rule, class, class field, let field, parameter, let variable, rule and class templates, operator '
                 'tables, named ignore rule, requires, counts) x every role (10/10/8) x EVERY identifier that occurs as a NAME token in the '
                 'generated module of that grammar (temporaries, helpers, builtins it refers to), every public name of sourcer.expressions and '
                 'the families the statement names (value2, item1, list, len, id, object, dict, Seq, List, Left ...), minus underscore names, '
